@@ -31,23 +31,25 @@ func sortedMimes(accept string) (sorted []mime) {
 		typeAndQuality := strings.Split(strings.Trim(each, " "), ";")
 		// optional whitespace around the separators is not part of the media type
 		media := strings.Trim(typeAndQuality[0], " ")
-		if len(typeAndQuality) == 1 {
-			sorted = insertMime(sorted, mime{media, 1.0})
-		} else {
-			// take factor
-			qAndWeight := strings.Split(typeAndQuality[1], "=")
+		quality, valid := 1.0, true
+		// the weight is the q parameter, which need not be the first parameter
+		for _, param := range typeAndQuality[1:] {
+			qAndWeight := strings.Split(param, "=")
 			if len(qAndWeight) == 2 && strings.Trim(qAndWeight[0], " ") == qFactorWeightingKey {
 				f, err := strconv.ParseFloat(strings.Trim(qAndWeight[1], " "), 64)
 				if err != nil {
 					if trace {
 						traceLogger.Printf("unable to parse quality in %s, %v", each, err)
 					}
+					valid = false
 				} else {
-					sorted = insertMime(sorted, mime{media, f})
+					quality = f
 				}
-			} else {
-				sorted = insertMime(sorted, mime{media, 1.0})
+				break
 			}
+		}
+		if valid {
+			sorted = insertMime(sorted, mime{media, quality})
 		}
 	}
 	return
